@@ -1,18 +1,9 @@
 (** C04 lemmas, part 1 (no well-formedness hypothesis needed): order of the result, absence
     of duplicate routes, absence of loops, expiry. *)
+From Sci Require Export Combine.Obs.
 From Sci Require Import Combine.Model Combine.Proofs Combine.ProofsEnc Combine.ProofsC19 Combine.ProofsBound Common.ListAux.
 From Coq Require Import Lia ZifyBool ZifyNat ZifyN Permutation Sorted.
 Local Open Scope N_scope.
-
-(** * cost of a path, read off the path itself *)
-Definition seg_cons_dir (s : dpseg) : bool := N.testbit (ds_flags s) 0.
-Definition seg_peering (s : dpseg) : bool := N.testbit (ds_flags s) 1.
-(** links used inside the segment, plus the peering link (counted on the segment that is
-    left through it) *)
-Definition seg_cost (s : dpseg) : N :=
-  N.of_nat (length (ds_hops s) - 1) + (if seg_peering s && negb (seg_cons_dir s) then 1 else 0).
-Definition segs_cost (l : list dpseg) : N := fold_right (fun s acc => seg_cost s + acc) 0 l.
-Definition path_cost (p : spath) : N := segs_cost (sp_segs p).
 
 Definition edges_weight (l : list sedge) : N := fold_right (fun e acc => e_weight (se_edge e) + acc) 0 l.
 
